@@ -544,6 +544,17 @@ func c03Run(c *fw.Ctx) {
 		extraRepeat = append(extraRepeat, []string{"LPOP", "l", a}, []string{"RPOP", "l", a}, []string{"LINDEX", "l", a}, []string{"SCAN", a}, []string{"SCAN", "0", "COUNT", a},
 			[]string{"INCRBY", "s", a}, []string{"DECRBY", "n", a}, []string{"EXPIRE", "s", a}, []string{"EXPIREAT", "s", a}, []string{"SETEX", "e", a, "v"}, []string{"SET", "e", "v", "PX", a})
 	}
+	// every command family against keys that hold ANOTHER type (s string, h hash, l list, st set,
+	// z sorted set): an error or a type change, but a reply
+	for _, k := range []string{"s", "h", "l", "st", "z"} {
+		extraRepeat = append(extraRepeat,
+			[]string{"SET", k, "v"}, []string{"GET", k}, []string{"APPEND", k, "x"}, []string{"INCR", k}, []string{"GETRANGE", k, "0", "1"}, []string{"STRLEN", k}, []string{"SETNX", k, "v"}, []string{"GETSET", k, "v"},
+			[]string{"HSET", k, "f", "v"}, []string{"HSETNX", k, "f", "v"}, []string{"HMSET", k, "f", "v"}, []string{"HGET", k, "f"}, []string{"HGETALL", k}, []string{"HDEL", k, "f"}, []string{"HLEN", k}, []string{"HKEYS", k},
+			[]string{"LPUSH", k, "x"}, []string{"RPUSH", k, "x"}, []string{"LPOP", k}, []string{"RPOP", k, "2"}, []string{"LRANGE", k, "0", "-1"}, []string{"LINDEX", k, "0"}, []string{"LLEN", k},
+			[]string{"SADD", k, "m"}, []string{"SREM", k, "m"}, []string{"SMEMBERS", k}, []string{"SCARD", k}, []string{"SISMEMBER", k, "m"},
+			[]string{"ZADD", k, "1", "m"}, []string{"ZADD", k, "INCR", "1", "m"}, []string{"ZREM", k, "m"}, []string{"ZRANGE", k, "0", "-1"}, []string{"ZSCORE", k, "m"}, []string{"ZINCRBY", k, "1", "m"}, []string{"ZCARD", k}, []string{"ZREVRANGE", k, "0", "-1"}, []string{"ZRANGEBYSCORE", k, "-inf", "+inf"},
+			[]string{"RENAME", k, "s"}, []string{"RENAME", "s", k}, []string{"RENAMENX", k, "h"}, []string{"TYPE", k}, []string{"EXPIRE", k, "10"}, []string{"TTL", k}, []string{"DEL", k, k})
+	}
 	repeatItems := append([]reqItem{}, cat...)
 	for _, a := range extraRepeat {
 		repeatItems = append(repeatItems, mkItem(a[0]+"|repeat-extra "+strings.Join(a[1:], " "), "valid", bulkElems(a)))
